@@ -50,7 +50,7 @@ CHECKS = {
  "C12": ("exploration", "Kernels.tla class-pattern enumeration -> concretised trsbox calls -> contract clauses in the trace specification (+ every in-solver call); Trsbox.tla (kernel machine) model-checked and monitored calls of the real kernel validated snapshot by snapshot (TrsboxTrace.tla)",
          "Exhaustive class patterns (position of each coordinate w.r.t. its bounds x gradient sign x Hessian kind) for n <= 2/3, sampled to n = 8, several scalings each; contract classes (box, norm, model decrease, Cauchy decrease, gradient identity) computed in binary64 by the harness and evaluated by DfolsTrace.tla; the same clauses judge every trsbox call observed inside recorded solver runs.",
          "explored domain |xopt| <= 100*delta; clauses allow for the rounding of d = (xopt+d)-xopt only; in-solver calls judged inside the scale domain 1e-8 <= |g|, delta <= 1e8, |H|*delta <= 1e8*|g|", "5 C12"),
- "C13": ("exploration", "Kernels.tla class patterns -> trsbox_geometry / ctrsbox_* calls and in-solver regularised steps -> contract clauses; Sfista.tla (iteration-count machine of the regularised step solver) model-checked and bound to monitored calls (conformance notes)",
+ "C13": ("exploration", "Kernels.tla class patterns -> trsbox_geometry / ctrsbox_* calls and in-solver regularised steps -> contract clauses; Sfista.tla (iteration-count machine of the regularised step solver) and TrsboxLinear.tla (active-set loop of the geometry step) model-checked and bound to monitored calls (conformance notes)",
          "As C12 for the geometry solver (box to 1e-12, ball, global maximum against a bisection oracle, never worse than the zero step), the convex step kernels (norm bound) and the regularised step handed to the main loop (predicted reduction recomputed with the code's formula, observed in real regularised runs with bounds and with projections).",
          "gradient components 0 or >= 1e-10", "5 C13"),
  "C14": ("model_checking", "InitSet.tla exact lattice transcription, R-Init exact replay; DirGen.tla active-set patterns replayed into the generators",
